@@ -14,6 +14,7 @@ pub mod c15;
 pub mod c16;
 pub mod c17;
 pub mod c19;
+pub mod c10;
 pub mod evs;
 pub mod fraggen;
 pub mod ost;
@@ -38,6 +39,7 @@ pub fn run_property<C: Codec>(id: &str, tier: Tier) -> i32 {
         "C16" => c16::run::<C>(tier),
         "C17" => c17::run::<C>(tier),
         "C19" => c19::run::<C>(tier),
+        "C10" => c10::run::<C>(tier),
         _ => {
             println!("INCONCLUSIVE unknown property {id}");
             2
@@ -75,6 +77,7 @@ pub fn replay<C: Codec>(text: &str) -> i32 {
         "C16" => c16::replay::<C>(text, &known),
         "C17" => c17::replay::<C>(text, &known),
         "C19" => c19::replay::<C>(text, &known),
+        "C10" => c10::replay::<C>(text, &known),
         _ => None,
     };
     match r {
